@@ -68,6 +68,11 @@ ENGINES["dispatch4c"] = dict(drv="dispatch4", starts=(), trivial=r"=> U ; drop ;
 ENGINES["config"] = dict(drv="config", starts=(), trivial=r"=> unreadable ; err$",
     branches=["cload.ok", "cload.err", "cload.dual", "cload.plugins-nil", "cload.bad-item", "cload.iface", "cload.iface+listen", "cload.listen", "cload.default-listen", "cload.zoned", "cload.unreadable"])
 
+ENGINES["plug"] = dict(drv="plug", starts=("pcfg",), trivial=r"^pcfg .* ; (err|unsupported)$|=> skip$",
+    branches=["plug.prl-absent", "plug.prl-present"] + ["plug.%s.%s.setup-ok" % (n, p) for n, p in
+        [("dns","4"),("dns","6"),("router","4"),("mtu","4"),("netmask","4"),("lease_time","4"),("searchdomains","4"),("searchdomains","6"),
+         ("staticroute","4"),("ipv6only","4"),("autoconfigure","4"),("nbp","4"),("nbp","6"),("sleep","4"),("sleep","6"),("server_id","4"),("server_id","6")]])
+
 TB_BITSET = "github.com/bits-and-blooms/bitset (New/Test/Set/Clear/NextClear) modelled as List Bool, not verified"
 TB_STD = "Go stdlib net/bytes/encoding/binary/math/bits taken at their documented Nat-level meaning"
 
@@ -79,7 +84,35 @@ TB_CLOCK = "the wall clock is a parameter of the model; the conformance run brac
 TB_CODEC = "insomniacslk/dhcp: FromBytes/ToBytes and the reply constructors are not verified; the model starts from the parse result the harness obtains from the library for each datagram, and mirrors NewReplyFromRequest / NewAdvertiseFromSolicit / NewReplyFromMessage / NewRelayReplFromRelayForw"
 TB_HOOK = "server capture hook (build tag verif): the real HandleMsg4/6 runs; the reply is captured instead of written to a socket"
 
+TB_PLUG = "insomniacslk/dhcp option encoders/decoders: mirrored in Lean (enc*/dec*) and differential-checked on every emitted option; the stdlib parsers (net.ParseIP, ParseMAC, ParseCIDR, strconv.Atoi, time.ParseDuration, url.Parse) are oracle answers recorded per argument"
+
 PROPS = {
+    "C14": dict(
+        engines=[("plug", 4000, 60000)],
+        theorems=["C14_v6", "C14_v6_matrix", "C14_v6_matrix_all", "C14_v6_duid_of_setup", "C14_v4", "C14_v4_addr_of_setup"],
+        modules=["CoreDhcp.Props.C14"],
+        trusted_base=[TB_PLUG],
+        assumptions=["the response handed to server_id carries at most one Server-ID option (true of every chain of built-in plugins)", "strings.ToLower of the DUID type is modelled for ASCII"],
+    ),
+    "C17": dict(
+        engines=[("plug", 4000, 60000)],
+        theorems=["C17_builtin4", "C17_builtin6", "C17_netmask4", "C17_router4", "C17_searchdomains4", "C17_searchdomains6", "C17_staticroute4", "C17_dns4", "C17_dns6", "C17_mtu4",
+                  "C17_nbp4", "C17_nbp6", "C17_leasetime4", "C17_ipv6only4", "C17_autoconfigure4", "C17_sleep4", "C17_sleep6", "C17_inrange_mtu", "C17_inrange_seconds", "C17_D17_prefix_refuted",
+                  "C11_builtin_preserve_mt", "C12_builtin_preserve_mt"],
+        modules=["CoreDhcp.Props.C17", "CoreDhcp.Props.Builtin"],
+        trusted_base=[TB_PLUG],
+        assumptions=["in-range MTU (0..65535) and durations (0 .. 2^32 s): out-of-range values are truncated on the wire and reported as drift only (outside the property's quantifier)",
+                     "DHCPv6 plugins that append (nbp) are judged on responses that do not already carry their option and on request lists without repeated codes (C17.dom6)"],
+    ),
+    "C19": dict(
+        engines=[("plug", 4000, 60000), ("chain", 1500, 30000)],
+        theorems=["C19_setup_wireOK", "C19_setup_wireOK4", "C19_staticroute_rejects_non_ipv4", "C19_routes_roundtrip", "C19_labels_roundtrip", "C19_ips_roundtrip", "C19_bootparams_roundtrip",
+                  "C19_oversize6_refuted", "C13_nil_stop_builtin", "C13_nil_stop_builtin6"],
+        modules=["CoreDhcp.Props.C19", "CoreDhcp.Props.Builtin"],
+        trusted_base=[TB_PLUG, "'returns without panicking' is observed on the implementation (recover + watchdog, fresh process per configuration); the model's handlers are total by construction"],
+        assumptions=["setup of prefix / range / file is covered by their own engines (C08, C02, C10) and by the chain engine",
+                     "known finding D16: DHCPv6 option bodies over 65535 bytes are accepted (C19.fits is an explicit proviso of C19_setup_wireOK for dns6 / searchdomains6 / nbp6)"],
+    ),
     "C18": dict(
         engines=[("config", 3000, 60000)],
         theorems=["C18_holds", "C18_plugin_list_exact", "C18_rejects_bad_plugins", "C18_rejects_listen_and_interface", "C18_address_form", "C18_rejects_bad_address", "C18_needs_a_protocol"],
